@@ -701,7 +701,7 @@ func fieldIs(t types.Type, idx int, typ, name string) bool {
 	if !ok || idx >= st.NumFields() {
 		return false
 	}
-	return st.Field(idx).Name() == name
+	return Active.CanonFieldName(st.Field(idx)) == name
 }
 
 // FieldName returns "TypeName.field" for a FieldAddr / Field instruction.
@@ -730,7 +730,7 @@ func FieldName(v ssa.Value) string {
 			tn = n.Obj().Pkg().Path() + "." + tn
 		}
 	}
-	return tn + "." + st.Field(idx).Name()
+	return tn + "." + Active.CanonFieldName(st.Field(idx))
 }
 
 // FieldStores returns every Store instruction in module code whose address is the field typ.name.
